@@ -30,6 +30,8 @@ class VerifyMixin(object):
         mod = self.repo.module(c.module)
         fn, cls = mod.find(c.qualname)
         self.unit = c.qualname if "::" in c.qualname else "%s::%s" % (c.module, c.qualname)
+        if c.window:
+            self.unit += "@" + c.window
         self.contract = c
         self.module = mod
         self.fn = fn
@@ -92,6 +94,12 @@ class VerifyMixin(object):
                 if len(idx) != 1:
                     raise OutsideSubset("from_stmt %r matches %d top-level statements of %s" % (c.from_stmt, len(idx), c.qualname))
                 body = fn.body[idx[0]:]
+                if c.to_stmt is not None:
+                    pat2 = ast.parse(c.to_stmt).body[0]
+                    end = [i for i, s0 in enumerate(body) if i > 0 and _match(pat2, s0)]
+                    if not end:
+                        raise OutsideSubset("to_stmt %r matches no later top-level statement of %s" % (c.to_stmt, c.qualname))
+                    body = body[:end[0]]
                 self.notes.append("%s: executed from line %d on; the statements before it are not under contract (locals arbitrary at that point)"
                                   % (c.qualname, body[0].lineno))
             outs = self.exec_block(body, st.copy() if c.self_compose else st)
@@ -109,7 +117,7 @@ class VerifyMixin(object):
                 raise OutsideSubset("break/continue escaping function")
         for idx, (code_text, free, spec_text) in enumerate(c.expr_eq):
             self.check_expr_eq(c, fn, old, idx, code_text, free, spec_text)
-        info = dict(file=c.module, qualname=c.qualname, lines=[fn.lineno, fn.end_lineno], sha1=mod.sha1(fn),
+        info = dict(file=c.module, qualname=c.qualname + ("@" + c.window if c.window else ""), lines=[fn.lineno, fn.end_lineno], sha1=mod.sha1(fn),
                     decorators=[ast.unparse(d) for d in fn.decorator_list], paths=n_paths)
         self.contract = None
         return info
